@@ -44,7 +44,7 @@ def run_zv_idl(chk, args, trace):
             os.remove(p)
     cmd = [vlib.zv_path("prod"), "idl"] + [str(a) for a in args] + ["--out", trace]
     p = subprocess.run(cmd, cwd=vlib.ROOT, env=vlib.base_env(), stdout=subprocess.PIPE, stderr=subprocess.STDOUT,
-                       text=True, timeout=3600)
+                       text=True, errors="replace", timeout=3600)
     if p.returncode == 3 and os.path.exists(trace + ".hung"):
         with open(trace, "w") as f:
             f.write(json.dumps({"ev": "reset", "sid": "idl"}) + "\n")
